@@ -77,8 +77,8 @@ package boltz
 //@   callpre[typed-against-the-referencing-store] PostProcess@1: ref(arg0) == symStoreOf(index.symbol)
 //@   callpre[cascade-deletes-through-the-referencing-store-in-this-context] DeleteById@1: ref(recv) == symStoreOf(index.symbol) && arg0 == ctx.Ctx
 //@   ensures[pending-error-does-nothing] old(holderFailed[ctx.ErrHolder]) ==> dbSame()
-//@   callpre[restrict-looks-at-the-referrers-selected-by-the-predicate] IterateValidIds@1: ref(recv) == symStoreOf(index.symbol)
-//@   callpre[cascade-walks-the-referrers-selected-by-the-predicate] IterateValidIds@2: ref(recv) == symStoreOf(index.symbol)
+//@   callpre[restrict-looks-for-referrers-in-the-referencing-store] IterateValidIds@1: ref(recv) == symStoreOf(index.symbol)
+//@   callpre[cascade-walks-the-referencing-store] IterateValidIds@2: ref(recv) == symStoreOf(index.symbol)
 //@   ensures[restrict-deletes-nothing] index.cascadeType == CascadeNone ==> dbSame()
 //@   lensures[restrict-refuses-a-referenced-entity] !old(holderFailed[ctx.ErrHolder]) && index.cascadeType == CascadeNone && curPos[local(cursor, 1)] < curLen[local(cursor, 1)] ==> holderFailed[ctx.ErrHolder]
 //@   waive pre#Current the id cursor's position after a delete under it is bbolt's concern (the code re-seeks to the current key); not part of this claim
